@@ -47,6 +47,9 @@ class Prop(PropBase):
                        "w": rng.randint(1, N // 2 - 1), "seed": rng.randrange(1 << 30)}
         for N in (0, 1, 5, 8):
             yield {"op": "r2c", "N": N, "rank": 1, "axis": 0, "dtype": "complex128", "kind": "random", "w": 1, "seed": N}
+        # wide inputs: several million elements, series counts that are not multiples of a power of two
+        for N, wide, axis, dt in ((4096, 1030, 0, "float32"), (8192, 600, 0, "float64"), (2048, 2051, 1, "float32")):
+            yield {"op": "r2c", "N": N, "rank": 2, "axis": axis, "dtype": dt, "kind": "random", "w": 1, "seed": N + wide, "wide": wide}
             yield {"op": "r2c", "N": N, "rank": 2, "axis": 1, "dtype": "complex64", "kind": "random", "w": 1, "seed": N}
 
     def _input(self, case):
@@ -55,6 +58,8 @@ class Prop(PropBase):
         N, rank = case["N"], case["rank"]
         ax = case["axis"] % rank
         shape = [g.integers(1, 4) for _ in range(rank)]
+        if case.get("wide"):
+            shape = [case["wide"]] * rank           # many series side by side (millions of elements)
         shape[ax] = N
         if case["kind"] == "tone" and N >= 3:
             n = np.arange(N).reshape([-1 if i == ax else 1 for i in range(rank)])
